@@ -33,6 +33,8 @@ def run_cells(fn, cells, procs=None):
         if err:
             errors.append(f"cell {cell}: {err}")
             continue
+        # say which cell an unnamed inconclusive outcome (time budget) belongs to
+        st.inconclusive = [f"{m} [cell {cell}]" if ("budget" in str(m) and "[cell" not in str(m)) else m for m in st.inconclusive]
         total.merge(st)
         per_cell.append((cell, st.paths, st.proves))
     if procs > 1 and len(cells) > 1:
